@@ -12,4 +12,6 @@ pub mod seeding;
 pub mod serde_rt;
 #[cfg(kani)]
 pub mod debug;
+#[cfg(kani)]
+pub mod api;
 pub fn id<T>(x: T) -> T { x }
